@@ -16,14 +16,17 @@ pub const STREAM_MAX: usize = 0x1000_0000_0000_0000;   // streams shorter than 2
 pub mod io {
     use vstd::prelude::*;
 
-    pub enum ErrorKind { Interrupted, Other }
+    // the stable std::io::ErrorKind variants a guard may name; only equality is observable
+    #[derive(Clone, Copy)]
+    pub enum ErrorKind { NotFound, PermissionDenied, ConnectionRefused, ConnectionReset, ConnectionAborted, NotConnected, AddrInUse, AddrNotAvailable, BrokenPipe, AlreadyExists, WouldBlock, InvalidInput, InvalidData, TimedOut, WriteZero, Interrupted, Unsupported, UnexpectedEof, OutOfMemory, Other }
+    pub open spec fn kind_idx(k: ErrorKind) -> int { match k { ErrorKind::NotFound => 0, ErrorKind::PermissionDenied => 1, ErrorKind::ConnectionRefused => 2, ErrorKind::ConnectionReset => 3, ErrorKind::ConnectionAborted => 4, ErrorKind::NotConnected => 5, ErrorKind::AddrInUse => 6, ErrorKind::AddrNotAvailable => 7, ErrorKind::BrokenPipe => 8, ErrorKind::AlreadyExists => 9, ErrorKind::WouldBlock => 10, ErrorKind::InvalidInput => 11, ErrorKind::InvalidData => 12, ErrorKind::TimedOut => 13, ErrorKind::WriteZero => 14, ErrorKind::Interrupted => 15, ErrorKind::Unsupported => 16, ErrorKind::UnexpectedEof => 17, ErrorKind::OutOfMemory => 18, ErrorKind::Other => 19 } }
     impl vstd::std_specs::cmp::PartialEqSpecImpl for ErrorKind {
         open spec fn obeys_eq_spec() -> bool { true }
         open spec fn eq_spec(&self, o: &ErrorKind) -> bool { *self == *o }
     }
     impl PartialEq for ErrorKind {
         fn eq(&self, o: &ErrorKind) -> (r: bool) {
-            match (self, o) { (ErrorKind::Interrupted, ErrorKind::Interrupted) => true, (ErrorKind::Other, ErrorKind::Other) => true, _ => false }
+            match (self, o) { (ErrorKind::NotFound, ErrorKind::NotFound) => true, (ErrorKind::PermissionDenied, ErrorKind::PermissionDenied) => true, (ErrorKind::ConnectionRefused, ErrorKind::ConnectionRefused) => true, (ErrorKind::ConnectionReset, ErrorKind::ConnectionReset) => true, (ErrorKind::ConnectionAborted, ErrorKind::ConnectionAborted) => true, (ErrorKind::NotConnected, ErrorKind::NotConnected) => true, (ErrorKind::AddrInUse, ErrorKind::AddrInUse) => true, (ErrorKind::AddrNotAvailable, ErrorKind::AddrNotAvailable) => true, (ErrorKind::BrokenPipe, ErrorKind::BrokenPipe) => true, (ErrorKind::AlreadyExists, ErrorKind::AlreadyExists) => true, (ErrorKind::WouldBlock, ErrorKind::WouldBlock) => true, (ErrorKind::InvalidInput, ErrorKind::InvalidInput) => true, (ErrorKind::InvalidData, ErrorKind::InvalidData) => true, (ErrorKind::TimedOut, ErrorKind::TimedOut) => true, (ErrorKind::WriteZero, ErrorKind::WriteZero) => true, (ErrorKind::Interrupted, ErrorKind::Interrupted) => true, (ErrorKind::Unsupported, ErrorKind::Unsupported) => true, (ErrorKind::UnexpectedEof, ErrorKind::UnexpectedEof) => true, (ErrorKind::OutOfMemory, ErrorKind::OutOfMemory) => true, (ErrorKind::Other, ErrorKind::Other) => true, _ => false }
         }
     }
 
